@@ -276,8 +276,7 @@ def judge(ctx, a, paths, o, cond, st_before, replay):
                 if not okk:
                     bad('snap_touch', '%s:%s changed (%s) beyond the sub-second part of its time' % (dn, rel, what))
                 elif b4[2] % 10**9 != 0:
-                    ctx.viol('touch_nonzero', 'touch changed the sub-second time of %s:%s although it was not zero on disk (%d ns): the recorded value was 0 but the file had been modified since' % (dn, rel, b4[2] % 10**9),
-                             rep, finding_key='F-C12-touch-rewrites-nonzero-subsecond')
+                    ctx.viol('touch_nonzero', 'touch changed the sub-second time of %s:%s although it was not zero on disk (%d ns): the recorded value was 0 but the file had been modified since' % (dn, rel, b4[2] % 10**9), rep)
                 continue
             if cmd == 'fix':
                 base = rel[:-len('.unrecoverable')] if rel.endswith('.unrecoverable') else rel
@@ -337,7 +336,9 @@ def extend_summary(ctx, a, paths, cmd, opts, d, cond, o_before_snapshot, faulty)
             for di, dn in enumerate(a.disks):
                 for f in (st['disks'].get(dn) or {'files': []})['files']:
                     rel = f['sub'].decode('latin1')
-                    if f['nsec'] == 0 and os.path.isfile(a.path(dn, rel)) and not os.path.islink(a.path(dn, rel)):
+                    # touch.c: recorded nanoseconds 0, the file opens, and (since c4adc84) its on-disk nanoseconds are 0
+                    if f['nsec'] == 0 and os.path.isfile(a.path(dn, rel)) and not os.path.islink(a.path(dn, rel)) \
+                            and os.stat(a.path(dn, rel)).st_mtime_ns % 10**9 == 0:
                         tl.append((di, paths.pid(di, rel)))
         d['touch'] = tl
     if cmd == 'pool':
@@ -351,7 +352,14 @@ def extend_summary(ctx, a, paths, cmd, opts, d, cond, o_before_snapshot, faulty)
             dn = a.disks[di]
             p = a.path(dn, rel)
             missing = not os.path.lexists(p)
-            sel = False if ('-e' in opts or '-b' in opts) else selected_py(opts, dn, rel, missing)
+            if '-e' in opts or '-b' in opts:
+                # filter_correctness: files with a block whose info word is marked bad; links and dirs are not filtered by -e
+                if kind == 'file':
+                    sel = any(pos < len(st['info']) and st['info'][pos] and st['info'][pos]['bad'] for _, pos, _ in ent['blocks'])
+                else:
+                    sel = selected_py([x for x in opts if x not in ('-e', '-b')], dn, rel, missing)
+            else:
+                sel = selected_py(opts, dn, rel, missing)
             state = 'good'
             k = 'file'
             larger = False
@@ -532,22 +540,42 @@ def scenario_mutating(ctx, seed, cond, shape, cmd, opts, fail=None, then=None):
         shutil.rmtree(a.root, ignore_errors=True)
 
 
-def scenario_touch_modified(ctx, seed):
-    """recorded nanoseconds 0, file modified since within the same second: on-disk nanoseconds are not zero"""
-    rng = random.Random(seed)
-    a = Array(ctx.binary, nd=2, np_=1, ncontent=1, shim=ctx.shim)
+def scenario_corpus(ctx, path):
+    """regression cases of corpus/C12/*.json (run on every check, first)"""
+    c = json.load(open(path))
+    rng = random.Random(7)
+    a = Array(ctx.binary, nd=c['disks'], np_=c['parity'], ncontent=c['content'], shim=ctx.shim)
     paths = L.Paths(a)
+    replay = {'corpus': os.path.basename(path)}
+
+    def put(spec):
+        d, n, fill, size, sec, nsec = spec
+        data = rng.randbytes(size) if fill == 'random' else fill.encode() * size
+        a.write(d, n, data, mtime_ns=sec * 10**9 + nsec)
     try:
-        a.write('d1', 'x', b'A' * 3000, mtime_ns=T0 * 10**9)
-        a.write('d2', 'y', rng.randbytes(2000), mtime_ns=(T0 + 5) * 10**9 + 77)
-        if a.run('sync').rc != 0:
-            raise RuntimeError('sync')
-        a.write('d1', 'x', b'B' * 3000, mtime_ns=T0 * 10**9 + 500)
-        r0 = a.run('diff')
-        o = one_run(ctx, a, paths, 'touch', [], 'file modified after sync, recorded nsec 0', {'seed': seed, 'scenario': 'touch_modified'})
-        r1 = a.run('diff')
-        if r0.rc == 2 and r1.rc == 0:
-            ctx.notes.add('touch on a file modified after the last sync (recorded nanoseconds 0, on-disk nanoseconds not 0) makes record and disk agree: diff reported an update before the touch and none after it')
+        for spec in c['files']:
+            put(spec)
+        if c.get('sync') and a.run('sync').rc != 0:
+            raise RuntimeError('corpus case %s: initial sync failed' % c['name'])
+        for spec in c.get('rewrite', []):
+            put(spec)
+        before = {(d, n): os.stat(a.path(d, n)).st_mtime_ns for d, n in c['expect'].get('untouched', []) + c['expect'].get('touched', [])}
+        o = one_run(ctx, a, paths, c['command'][0], c['command'][1:], 'corpus:' + c['name'], replay)
+        for d, n in c['expect'].get('untouched', []):
+            now = os.stat(a.path(d, n)).st_mtime_ns
+            if now != before[(d, n)]:
+                ctx.viol('corpus_' + c['name'], 'REGRESSION (%s): `%s` changed the time-stamp of %s:%s from %d to %d ns although its sub-second part was not zero on disk (%s)'
+                         % (c['name'], ' '.join(c['command']), d, n, before[(d, n)], now, c['origin']), dict(replay, case=c))
+        for d, n in c['expect'].get('touched', []):
+            now = os.stat(a.path(d, n)).st_mtime_ns
+            if now == before[(d, n)] or now // 10**9 != before[(d, n)] // 10**9:
+                ctx.viol('corpus_' + c['name'] + '_t', 'REGRESSION (%s): `%s` did not give %s:%s (on-disk and recorded nanoseconds 0) a sub-second time-stamp within the same second (%d -> %d)'
+                         % (c['name'], ' '.join(c['command']), d, n, before[(d, n)], now), dict(replay, case=c))
+        if 'diff_after_rc' in c['expect']:
+            r1 = a.run('diff')
+            if r1.rc != c['expect']['diff_after_rc']:
+                ctx.viol('corpus_' + c['name'] + '_d', 'REGRESSION (%s): after `%s` diff exits %d instead of %d: the modification made after the last sync is hidden (%s)'
+                         % (c['name'], ' '.join(c['command']), r1.rc, c['expect']['diff_after_rc'], c['origin']), dict(replay, case=c))
     finally:
         shutil.rmtree(a.root, ignore_errors=True)
 
@@ -577,6 +605,10 @@ def main(tier, replay=None):
     thorough = tier == 'thorough'
     shapes = [(3, 2, 2), (2, 1, 1), (3, 3, 2), (4, 2, 3)]
     jobs = []
+    import glob as _glob
+    for cp in sorted(_glob.glob(os.path.join(VERIF, 'corpus', 'C12', '*.json'))):
+        jobs.append((scenario_corpus, (cp,)))
+    ncorpus = len(jobs)
     k = 0
     for cond in CONDS_QUICK:
         sh = shapes[0] if not thorough else None
@@ -598,7 +630,6 @@ def main(tier, replay=None):
                     then = [('fix', ['-e'])] if cond in ('damaged', 'parity_damaged') else None
                 jobs.append((scenario_mutating, (rng.getrandbits(30), cond, shp, cmd, list(opts), None, then)))
             k += 1
-    jobs.append((scenario_touch_modified, (rng.getrandbits(30),)))
     # injected read errors: the documented sets hold on runs that end in errors too
     faults = []
     fcmds = [('check', []), ('scrub', ['-p', 'full']), ('sync', []), ('fix', []), ('fix', ['-m']), ('sync', ['-h']), ('check', ['-a'])]
@@ -623,7 +654,7 @@ def main(tier, replay=None):
         list(ex.map(one, jobs))
     chk.cov.update({'evaluations': ctx.runs, 'distinct_nontrivial': ctx.runs,
                     'rule': 'one observed real command per evaluation: commands x array conditions (see by_command / by_condition), each on a freshly built tiny array (mutating commands) or in sequence on one array (read-only commands); every state-changing system call (shim) and every snapshot difference is judged against the documented set of the command by a Python rule table, fix/touch writes path by path against the content record, the filters and the log reports; the extracted model is run on the independent precondition summary of the same run and must give the same exit class and effect class set (undetermined summary fields are enumerated); non-trivial = all runs (each has a non-empty before-state and at least the lock effect)',
-                    'scenarios': len(jobs), 'by_command': ctx.by_cmd, 'by_condition': ctx.by_cond, 'runs_with_injected_read_errors': ctx.fault_runs,
+                    'scenarios': len(jobs), 'corpus_cases': ncorpus, 'by_command': ctx.by_cmd, 'by_condition': ctx.by_cond, 'runs_with_injected_read_errors': ctx.fault_runs,
                     'state_changing_calls_judged': ctx.effects_seen, 'model_vs_real_comparisons': ctx.model_cmp,
                     'traces_validated_against_impl': ctx.model_cmp})
     chk.cov['samples'] = ctx.samples
